@@ -24,7 +24,7 @@ func init() {
 		Rules: []rule{
 			{"C13.size-fields", "declared element sizes equal the bytes the encoder writes (linear forms)", 7, c13SizeFields},
 			{"C13.goodbye", "goodbye items: hash of the written name, offsets from the byte counter, tail marker, sorted before layout", 7, c13Goodbye},
-			{"C13.byte-counter", "every encoded element's byte count is added to the running offset", 8, c13ByteCounter},
+			{"C13.byte-counter", "every encoded element's byte count is added to the running offset", 6, c13ByteCounter},
 			{"C13.grammar", "tar() emits Entry XAttr* (Payload|Symlink|Device|(Filename Child)* Goodbye)", 1, c13Grammar},
 			{"C13.codec", "encoder and decoder agree on every element type", 15, func(c *Ctx) { c.codecAgree(allElementTypes) }},
 		},
